@@ -1,20 +1,137 @@
 /-
   Refinement of the wire grammar by the parser (the development behind C04).
-  TO BE PROVED: the two theorems at the end.  Helper lemmas may be added in this file or in new files under
-  IppModel/Lemmas/.  Model/ and Spec/ files must not be changed.
+  Helper lemmas: Bytes.lean (byte round trips, flat reader, `lossy`), Framing.lean (token run vs byte loop,
+  fuel), DecodeSpec.lean (value decoder vs `decodePlain`), TokenRun.lean (tokens of values and attributes
+  on the parser state).  This file: delimiters, groups, assembly.
 -/
 import IppModel.Lemmas.Total
 import IppModel.Spec.Wire
+import IppModel.Lemmas.TokenRun
 namespace Ipp
 open Gen Spec
 
+/-! ### single loop iterations on a tag byte -/
+
+theorem driveLoop_delim {σ : Type} (cfg : LoopCfg) (m : Machine σ) (f : Nat) (tag : UInt8) (r : Bytes)
+    (st st' : σ) (code : Nat) (hr : cfg.delimLo ≤ tag.toNat ∧ tag.toNat ≤ cfg.delimHi)
+    (hd : m.delim st tag = .ok (st', code)) (hc : code ≠ cfg.endTag) :
+    driveLoop flatRd cfg m (f + 1) (tag :: r) st = driveLoop flatRd cfg m f r st' := by
+  simp only [driveLoop, rdU8_flat, hr, and_self, if_true, hd, hc, if_false]
+
+theorem driveLoop_end {σ : Type} (cfg : LoopCfg) (m : Machine σ) (f : Nat) (tag : UInt8) (r : Bytes)
+    (st st' : σ) (hr : cfg.delimLo ≤ tag.toNat ∧ tag.toNat ≤ cfg.delimHi)
+    (hd : m.delim st tag = .ok (st', cfg.endTag)) :
+    driveLoop flatRd cfg m (f + 1) (tag :: r) st = .ok (st', r) := by
+  simp only [driveLoop, rdU8_flat, hr, and_self, if_true, hd]
+
+theorem driveLoop_bad {σ : Type} (cfg : LoopCfg) (m : Machine σ) (f : Nat) (tag : UInt8) (r : Bytes) (st : σ)
+    (h1 : ¬ (cfg.delimLo ≤ tag.toNat ∧ tag.toNat ≤ cfg.delimHi))
+    (h2 : ¬ (cfg.valueLo ≤ tag.toNat ∧ tag.toNat ≤ cfg.valueHi)) :
+    driveLoop flatRd cfg m (f + 1) (tag :: r) st = .err (.invalidTag tag) := by
+  simp only [driveLoop, rdU8_flat, h1, h2, if_false]
+
+/-! ### delimiters -/
+
+/-- `done` is the group list a delimiter arriving in state `s` produces -/
+def Ready (s : PState) (done : List Group) : Prop :=
+  (s = PState.init ∧ done = []) ∨
+  ∃ gs t m pend, s = mkSt gs t m pend ∧ done = gs ++ [⟨t, flushP m pend⟩]
+
+theorem delim_ready (s : PState) (done : List Group) (hr : Ready s done) (tag : UInt8) (t : DelimiterTag)
+    (ht : DelimiterTag.fromCode tag.toNat = some t) :
+    pMachine.delim s tag = .ok (mkSt done t [] none, t.code) := by
+  simp only [pMachine, PState.parseDelimiter, ht]
+  rcases hr with ⟨rfl, rfl⟩ | ⟨gs, t', m, pend, rfl, rfl⟩
+  · rfl
+  · rw [mkSt_addLast]; rfl
+
+theorem delimOf_some (tag : UInt8) (t : DelimiterTag) (h : delimOf tag = some t) :
+    DelimiterTag.fromCode tag.toNat = some t ∧ t.code ≠ syncLoop.endTag ∧
+      (syncLoop.delimLo ≤ tag.toNat ∧ tag.toNat ≤ syncLoop.delimHi) := by
+  unfold delimOf at h
+  repeat' split at h
+  all_goals first
+    | (subst_vars; simp only [Option.some.injEq] at h; subst h; decide)
+    | (simp at h)
+
+/-! ### groups -/
+
+theorem groups_run (gs : List WGroup) (h : wfGroups gs = true) (s : PState) (done : List Group)
+    (hr : Ready s done) :
+    ∃ k s', Ready s' (done ++ interpGroups gs) ∧ ∀ f rest,
+      driveLoop flatRd syncLoop pMachine (f + k) (serGroups gs ++ rest) s =
+        driveLoop flatRd syncLoop pMachine f rest s' := by
+  induction gs generalizing s done with
+  | nil => exact ⟨0, s, by simpa [interpGroups] using hr, fun f rest => by simp [serGroups]⟩
+  | cons g gs ih =>
+    simp only [wfGroups, wfGroup, Bool.and_eq_true] at h
+    obtain ⟨⟨hd, ha⟩, hgs⟩ := h
+    obtain ⟨t, ht⟩ := Option.isSome_iff_exists.mp hd
+    obtain ⟨hfc, hne, hrange⟩ := delimOf_some g.tag t ht
+    obtain ⟨m', pend', hrun, hfl⟩ := run_attrs g.attrs ha done t [] none
+    have hr2 : Ready (mkSt done t m' pend') (done ++ [interpGroup g]) := by
+      refine Or.inr ⟨done, t, m', pend', rfl, ?_⟩
+      simp only [interpGroup, ht, Option.getD_some]
+      rw [hfl]; rfl
+    obtain ⟨k2, s', hr', hk⟩ := ih hgs _ _ hr2
+    refine ⟨k2 + (toksAttrs g.attrs).length + 1, s', ?_, ?_⟩
+    · simpa [interpGroups] using hr'
+    · intro f rest
+      rw [show f + (k2 + (toksAttrs g.attrs).length + 1) = (f + k2 + (toksAttrs g.attrs).length) + 1 by omega]
+      simp only [serGroups, serGroup, List.cons_append, List.append_assoc]
+      rw [driveLoop_delim syncLoop pMachine _ g.tag _ s _ _ hrange (delim_ready s done hr g.tag t hfc) hne,
+        driveLoop_toks syncLoop pMachine _ (toksAttrs_ok g.attrs ha) _ _ _ hrun, hk]
+
+/-! ### assembly -/
+
+theorem parseFlat_core (v o : UInt16) (i : UInt32) (B : Bytes) (f : Nat)
+    (hne : driveLoop flatRd syncLoop pMachine f B PState.init ≠ .outOfFuel) :
+    parseFlat (be16 v.toNat ++ (be16 o.toNat ++ (be32 i ++ B))) =
+      match driveLoop flatRd syncLoop pMachine f B PState.init with
+      | .err e => .err e
+      | .panic => .panic
+      | .outOfFuel => .outOfFuel
+      | .ok (st, r2) => .ok ((⟨v, o, i⟩, st.groups), r2) := by
+  unfold parseFlat parseWith
+  rw [rdHeader_flat]
+  simp only []
+  rw [driveLoop_fuel_transfer flatRd syncLoop pMachine f _ B PState.init hne
+    (driveLoop_flat_fuel _ _ _ _ (by simp [be16, be32]; omega))]
+  generalize driveLoop flatRd syncLoop pMachine f B PState.init = X
+  rcases X with ⟨⟨st, r2⟩⟩ | e | _ | _ <;> rfl
+
 theorem parseFlat_ser (w : WMsg) (p : Bytes) (h : wfWire w = true) :
     parseFlat (ser w ++ p) = .ok (interp w, p) := by
-  sorry
+  obtain ⟨k, s', hr', hk⟩ := groups_run w.groups h PState.init [] (Or.inl ⟨rfl, rfl⟩)
+  have hend : driveLoop flatRd syncLoop pMachine (1 + k) (serGroups w.groups ++ 0x03 :: p) PState.init =
+      .ok (mkSt ([] ++ interpGroups w.groups) .EndOfAttributes [] none, p) := by
+    rw [hk]
+    exact driveLoop_end syncLoop pMachine 0 0x03 p s' _ (by decide)
+      (delim_ready s' _ hr' 0x03 .EndOfAttributes rfl)
+  have := parseFlat_core w.version w.op w.id (serGroups w.groups ++ 0x03 :: p) (1 + k) (by rw [hend]; simp)
+  rw [hend] at this
+  simp only [ser, List.append_assoc, List.cons_append, List.nil_append]
+  rw [this]
+  simp [interp, mkSt]
 
 theorem parseFlat_bad_tag (v o : UInt16) (i : UInt32) (gs : List WGroup) (b : UInt8) (r : Bytes)
     (h : wfGroups gs = true) (hb : b = 0 ∨ (5 < b ∧ b < 0x10) ∨ 0x4a < b) :
     parseFlat (be16 v.toNat ++ (be16 o.toNat ++ (be32 i ++ (serGroups gs ++ b :: r)))) = .err (.invalidTag b) := by
-  sorry
+  obtain ⟨k, s', _, hk⟩ := groups_run gs h PState.init [] (Or.inl ⟨rfl, rfl⟩)
+  have hbad : driveLoop flatRd syncLoop pMachine (1 + k) (serGroups gs ++ b :: r) PState.init =
+      .err (.invalidTag b) := by
+    rw [hk]
+    have e5 : (5 : UInt8).toNat = 5 := rfl
+    have e16 : (0x10 : UInt8).toNat = 16 := rfl
+    have e74 : (0x4a : UInt8).toNat = 74 := rfl
+    have hb' : b.toNat = 0 ∨ (5 < b.toNat ∧ b.toNat < 16) ∨ 74 < b.toNat := by
+      rcases hb with rfl | ⟨h1, h2⟩ | h3
+      · exact Or.inl rfl
+      · rw [UInt8.lt_iff_toNat_lt] at h1 h2; rw [e5] at h1; rw [e16] at h2; exact Or.inr (Or.inl ⟨h1, h2⟩)
+      · rw [UInt8.lt_iff_toNat_lt, e74] at h3; exact Or.inr (Or.inr h3)
+    apply driveLoop_bad <;> simp only [syncLoop] <;> omega
+  have := parseFlat_core v o i (serGroups gs ++ b :: r) (1 + k) (by rw [hbad]; simp)
+  rw [hbad] at this
+  exact this
 
 end Ipp
